@@ -1001,10 +1001,36 @@ int main(int argc, char **argv) {
         st.fn     = [](int64_t chunk, vx::Ctx &ctx) {
             static thread_local std::vector<Value<char>>     v8;
             static thread_local std::vector<Value<char32_t>> v32;
+            // pointer twins: the same document, every top-level member (item) reached through a pointer-to-value, and the root
+            // itself handed in as a pointer: the expansion is the one of the plain tree
+            static thread_local std::vector<Value<char>> twin, twin_root;
             if (v8.empty()) {
                 for (auto &vs : specs) {
                     v8.push_back(build_value<char>(vs));
                     v32.push_back(build_value<char32_t>(vs));
+                }
+                twin.resize(v8.size());
+                twin_root.resize(v8.size());
+                for (size_t i = 0; i < v8.size(); i++) {
+                    Value<char> &o = v8[i];
+                    if (o.IsObject()) {
+                        twin[i] = ValueType::Object; // an empty document stays an (empty) object
+                        for (SizeT k = 0; k < o.Size(); k++) {
+                            Value<char>       *m   = o.GetValue(k);
+                            const String<char> *key = o.GetKey(k);
+                            if (m != nullptr && key != nullptr && !m->IsUndefined()) {
+                                twin[i][*key].SetPointerToValue(m);
+                            }
+                        }
+                    } else {
+                        for (SizeT k = 0; k < o.Size(); k++) {
+                            Value<char> *m = o.GetValue(k);
+                            if (m != nullptr) {
+                                twin[i].AddPointerToValue(m);
+                            }
+                        }
+                    }
+                    twin_root[i].SetPointerToValue(&twin[i]);
                 }
             }
             Gen     g;
@@ -1052,6 +1078,12 @@ int main(int argc, char **argv) {
                         continue;
                     }
                     ctx.acc.outcome(vx::hstr(got));
+                    const std::string gt = render<char>(tsrc, ((ti + vi) & 1) ? twin[vi] : twin_root[vi]);
+                    ctx.acc.count("evals");
+                    if (gt != got) {
+                        ctx.fail(std::string("value=") + specs[vi].name + " (members behind pointers" + (((ti + vi) & 1) ? "" : ", pointer root") + ") template " + tsrc,
+                                 "rendered '" + gt + "', the plain tree renders '" + got + "'");
+                    }
                     std::string g32 = render<char32_t>(tsrc, v32[vi]);
                     if (g32 != got) {
                         ctx.fail(std::string("value=") + specs[vi].name + " char32_t template " + tsrc, "char32_t rendered '" + g32 + "', char rendered '" + got + "'");
